@@ -1492,8 +1492,11 @@ def sec_projector(ctx, rng, case):
     ctx.check(close(got, pmat_(d0, c0, order)), "projector-matrix", "C14:projector-string-matrix", "", **wit)
     psum = cirq.ProjectorSum.from_projector_strings(strings) if case % 2 else sum(strings[1:], cirq.ProjectorSum.from_projector_strings(strings[0]))
     Mw = sum((pmat_(d, c, order) for c, d in terms), np.zeros((2 ** m,) * 2, dtype=complex))
-    gm = psum.matrix([qs[w] for w in order])
-    gm = gm.toarray() if hasattr(gm, "toarray") else np.asarray(gm)
+    if len(psum) == 0:  # all terms cancelled: the empty sum is the zero operator (matrix() returns the number 0)
+        gm = np.zeros_like(Mw)
+    else:
+        gm = psum.matrix([qs[w] for w in order])
+        gm = gm.toarray() if hasattr(gm, "toarray") else np.asarray(gm)
     ctx.check(close(gm, Mw), "projector-matrix", "C14:projector-sum-matrix", "", **wit)
     s = rand_coef(rng)
     for name, obj, want in (("s*S", s * psum, s * Mw), ("S*s", psum * s, s * Mw), ("-S", -psum, -Mw), ("S/s", psum / s, Mw / s),
